@@ -119,6 +119,13 @@ CHECKS = {
             'ref': 'DESIGN.md 2/C09', 'note': NOTE + ' All variables are finite selectors (crash points, vectors): exhaustive within the '
                     'bound; the solver contributes coverage, not arithmetic. Real sockets are replaced by fake endpoints.',
             'technique': SYM + ' (selector-driven: crash points and reachability vectors as solver variables)'},
+    'C11': {'text': 'Real clients and a real Bus joined by in-memory byte pipes: a proxy call (explicit or introspected interface) with '
+                    'SYMBOLIC arguments crosses four encode/decode hops and must run the method once with equal arguments and complete '
+                    'with the equal value or a mirrored RemoteError; one or two concurrent calls under every delivery schedule up to the '
+                    'bound (link order and cuts as solver-chosen selectors).',
+            'ref': 'DESIGN.md 2/C11', 'note': NOTE + ' Whole-program runs are a weak target for the technique: bounds are small and stated '
+                    '(2-3 clients, first 4-5 scheduling decisions).',
+            'technique': SYM + ' of an end-to-end scenario with symbolic arguments and a symbolic delivery schedule'},
 }
 _TODO = 'check not built yet in this revision (planned, see DESIGN.md section 2)'
 NOT_APPLICABLE = {('C%02d' % i): _TODO for i in range(1, 21)}
